@@ -8,6 +8,7 @@ UNITS = [
     ('c08_layout_v2_blocks', 900, True, 'read_data_blocks::<8>, same'),
     ('c08_records_min_v1', 1500, True, 'DataBlocks::<4>::parse on shape (1,1,4,0,0,0), all bytes symbolic: transition = sign-extended BE time + index byte; type = BE i32, flag 0/1, NUL-terminated designation at index (incl. suffixes); error kinds; result = TimeZone::new of those lists'),
     ('c08_records_min_v2', 1500, True, 'DataBlocks::<8>::parse, same'),
+    ('c08_records_designation_lengths_v2', 1800, True, 'same shape with a 10-byte designation table: every designation length 0..9 at every index (7 = longest legal, 8/9 refused as LocalTimeType errors), unterminated strings, index beyond the table'),
     ('c08_records_two_v2', 2400, True, 'DataBlocks::<8>::parse on shape (2,2,8,0,0,0): two transitions and two types with symbolic bytes, designation table "ABCD\\0XY\\0" with arbitrary indices (suffix sharing)'),
     ('c08_records_leap_indicators_v2', 1500, True, 'leap record = (BE i64, BE i32); (isstd,isut) pairs other than (0,0),(1,0),(1,1) refused'),
     ('c08_footer_framing', 1500, True, 'parse_footer on <=6 symbolic bytes (ASCII case specified): NL framing, NUL / leading colon refused, empty -> None, otherwise exactly the trimmed bytes and the extension flag go to the TZ-string decoder (abstracted)'),
@@ -24,7 +25,7 @@ def run(ck):
                  'S_sub(DataBlocks::parse) in c08_file_composition: records TIME_SIZE, the header fields, the first block\'s address and the footer slice; returns Ok/Err nondeterministically (its own contract: c08_records_*)',
                  'S_sub(parse_footer) in c08_extension_flag_is_version3']
     ck.trusted += ['Kani 0.68 / CBMC 6.11', 'paper step: units = reference and composition = reference composition  =>  whole decoder = reference']
-    hs = [H(n, cap=c, required=r, meaning=m, playback=n in ('c08_header', 'c08_layout_v1_blocks', 'c08_layout_v2_blocks', 'c08_records_min_v1', 'c08_records_min_v2', 'c08_records_two_v2', 'c08_records_leap_indicators_v2')) for n, c, r, m in UNITS]
+    hs = [H(n, cap=c, required=r, meaning=m, playback=n in ('c08_header', 'c08_layout_v1_blocks', 'c08_layout_v2_blocks', 'c08_records_min_v1', 'c08_records_min_v2', 'c08_records_designation_lengths_v2', 'c08_records_two_v2', 'c08_records_leap_indicators_v2')) for n, c, r, m in UNITS]
     kprop.run_harnesses(ck, hs, on_fail=lambda B, h: (footer_replay(ck, B, h) if h.name == 'c08_footer_framing' else kprop.playback_violation(ck, B, h) if h.playback_ok else ck.inconclusive.append(f'{h.name} FAILED: {h.failed_checks[:4]} (harness with abstracted callees: no native replay; unresolved)')))
     ck.functions += ['parse::tz_file::parse_header', 'read_data_blocks::<4>/<8>', 'DataBlocks::<4>/<8>::parse', 'parse_footer', 'parse_tz_file', 'parse::utils::{read_exact, read_chunk_exact}', 'LocalTimeType::new', 'TimeZone::new']
     ck.explanation = 'Whole-file harnesses do not finish (DESIGN.md C08); the decoder is verified as it is written: five units against an RFC 8536 reference typed in the harness, plus composition harnesses with abstracted callees.'
